@@ -143,6 +143,8 @@ def run(chk):
                                   f'{kind} ns={beh["ns"]} base={beh["base"]} step={beh["step"]}: {bad}')
                 if len(chk.samples) < 3 and len(beh['cols']) >= 3:
                     chk.sample({'ns': beh['ns'], 'batch_size': beh['base'], 'step': beh['step'], 'effective_batch': beh['bs'], 'points': beh['cols']})
+        from .. import apirules
+        apirules.run(chk, 'convergence_step', 'C08')
         # (V) every observed execution, judged by the property alone in one TLC run
         if OBS:
             import os
